@@ -100,6 +100,8 @@ def _body_downsample(n, kind, maxseqs):
         items = [sym.sym_str(f"x{i}", 1, lo=1) for i in range(n)]
         if kind == "table":
             data = pd_model.DataFrame({"CDR3B": list(items), "v": list(range(n))}, index=[3 + 2 * i for i in range(n)])
+        elif kind == "table-dupindex":         # e.g. two repertoires pooled with pd.concat: index labels repeat
+            data = pd_model.DataFrame({"CDR3B": list(items), "v": list(range(n))}, index=[3 + (i % 2) for i in range(n)])
         elif kind == "array":
             data = np_model.array(items)
         else:
@@ -111,7 +113,11 @@ def _body_downsample(n, kind, maxseqs):
         if len(picks) != 1 or len(set(picks[0])) != maxseqs or len(picks[0]) != maxseqs:
             return False, f"draws {picks}"
         if len(got) != maxseqs:
-            return False, f"{len(got)} elements returned, expected {maxseqs}"
+            return False, f"{len(got)} elements returned, expected exactly {maxseqs}"
+        if kind == "table-dupindex":
+            vs = [int(v) for v in got._cols["v"]]
+            return len(set(vs)) == maxseqs and all(got._cols["CDR3B"][a] is items[v] for a, v in enumerate(vs)), \
+                f"rows {vs} returned for maxseqs={maxseqs}: not {maxseqs} distinct input rows"
         if kind == "table":
             rows = [int(k) for k in picks[0]]
             ok = list(got._index) == [3 + 2 * r for r in rows] and all(got._cols["CDR3B"][a] is items[r] for a, r in enumerate(rows)) \
@@ -130,6 +136,7 @@ def _replay_downsample(n, kind, maxseqs):
         from pyrepseq import distance
         items = [inputs[f"x{i}"] for i in range(n)]
         data = pd.DataFrame({"CDR3B": items, "v": list(range(n))}, index=[3 + 2 * i for i in range(n)]) if kind == "table" else \
+            pd.DataFrame({"CDR3B": items, "v": list(range(n))}, index=[3 + (i % 2) for i in range(n)]) if kind == "table-dupindex" else \
             (np.array(items) if kind == "array" else list(items))
         for seed in range(5):
             np.random.seed(seed)
@@ -140,7 +147,11 @@ def _replay_downsample(n, kind, maxseqs):
                 continue
             if len(got) != maxseqs:
                 return False, f"downsample returned {len(got)} elements, expected {maxseqs}"
-            if kind == "table":
+            if kind == "table-dupindex":
+                vs = list(got["v"])
+                if len(set(vs)) != maxseqs or any(got["CDR3B"].iloc[a] != items[v] for a, v in enumerate(vs)):
+                    return False, f"downsample(table with index {list(data.index)}, {maxseqs}) returned rows {vs}"
+            elif kind == "table":
                 if not (set(got.index) <= set(data.index) and len(set(got.index)) == maxseqs and got.equals(data.loc[got.index])):
                     return False, f"rows {list(got.index)} are not a subset of the input rows"
             else:
@@ -294,7 +305,7 @@ def conditions(tier):
                              _replay_subsample(K, cmax, arr), budget=400 if not T else 3000, models=M,
                              bounds=f"{K} categories with counts 0..{cmax}, n symbolic, every draw"))
     for n, kind, ms in [(3, "list", 2), (3, "list", 3), (3, "list", None), (3, "array", 1), (4, "list", 2), (2, "list", 5), (3, "table", 2),
-                        (3, "table", 3), (4, "table", 3), (3, "list", 0), (2, "table", None)]:
+                        (3, "table", 3), (4, "table", 3), (3, "list", 0), (2, "table", None), (3, "table-dupindex", 2), (4, "table-dupindex", 1)]:
         out.append(Condition(f"C17/downsample/n={n}/{kind}/maxseqs={ms}", _body_downsample(n, kind, ms), _replay_downsample(n, kind, ms),
                              budget=300, models=M, bounds=f"{n} elements ({kind}), maxseqs={ms}, every draw"))
     for size in (1, 2, 3):
